@@ -21,35 +21,7 @@ static uint8_t VAL[32][64]; static const char *VNAME[32]; static int NV, VVALID[
 static void bn_be(uint8_t o[32], const BIGNUM *b) { sr_bn_to_bytes32(o, b); }
 static void addv(const char *n, const uint8_t xy[64]) { memcpy(VAL[NV], xy, 64); VNAME[NV] = n; VVALID[NV] = sr_xy_on_curve(xy); NV++; }
 static uint8_t GOOD[64], GOODD[32];
-/* ---- tiny polynomial arithmetic over F_p modulo the monic cubic f = x^3 + A x + C ---- */
-static void pmul(BIGNUM *r[3], BIGNUM *u[3], BIGNUM *v[3], const BIGNUM *A, const BIGNUM *C, const BIGNUM *p, BN_CTX *c) {
-	BIGNUM *t[5], *m = BN_new(); for (int i = 0; i < 5; i++) { t[i] = BN_new(); BN_zero(t[i]); }
-	for (int i = 0; i < 3; i++) for (int j = 0; j < 3; j++) { BN_mod_mul(m, u[i], v[j], p, c); BN_mod_add(t[i + j], t[i + j], m, p, c); }
-	/* x^4 = -A x^2 - C x ; x^3 = -A x - C */
-	BN_mod_mul(m, t[4], A, p, c); BN_mod_sub(t[2], t[2], m, p, c); BN_mod_mul(m, t[4], C, p, c); BN_mod_sub(t[1], t[1], m, p, c);
-	BN_mod_mul(m, t[3], A, p, c); BN_mod_sub(t[1], t[1], m, p, c); BN_mod_mul(m, t[3], C, p, c); BN_mod_sub(t[0], t[0], m, p, c);
-	for (int i = 0; i < 3; i++) BN_copy(r[i], t[i]); for (int i = 0; i < 5; i++) BN_free(t[i]); BN_free(m);
-}
-/* returns 1 and the point (x, ys) if the cubic x^3 - 3x + b - ys^2 has exactly one root in F_p */
-static int small_y_point(unsigned ys, uint8_t xy[64]) {
-	BN_CTX *c = sr_ctx(); const BIGNUM *p = sr_p(); BIGNUM *A = BN_new(), *C = BN_new(), *b = NULL, *t = BN_new(); BN_hex2bn(&b, "28E9FA9E9D9F5E344D5A9E4BCF6509A7F39789F515AB8F92DDBCBD414D940E93");
-	BN_copy(A, p); BN_sub_word(A, 3); BN_set_word(t, ys); BN_mod_sqr(t, t, p, c); BN_mod_sub(C, b, t, p, c);
-	BIGNUM *h[3], *x[3]; for (int i = 0; i < 3; i++) { h[i] = BN_new(); x[i] = BN_new(); BN_zero(h[i]); BN_zero(x[i]); } BN_one(h[0]); BN_one(x[1]);
-	for (int i = BN_num_bits(p) - 1; i >= 0; i--) { pmul(h, h, h, A, C, p, c); if (BN_is_bit_set(p, i)) pmul(h, h, x, A, C, p, c); }   /* h = x^p mod f */
-	BN_mod_sub(h[1], h[1], BN_value_one(), p, c);                                                                      /* g = x^p - x, degree <= 2 */
-	/* gcd(f, g): f = x^3 + A x + C.  Euclid by hand for degrees 3 / <=2. */
-	int ok = 0; BIGNUM *g2 = h[2], *g1 = h[1], *g0 = h[0], *inv = BN_new(), *q = BN_new(), *r1 = BN_new(), *r0 = BN_new(), *m = BN_new();
-	if (!BN_is_zero(g2)) {
-		/* make g monic: g = x^2 + a1 x + a0 */ BN_mod_inverse(inv, g2, p, c); BIGNUM *a1 = BN_new(), *a0 = BN_new(); BN_mod_mul(a1, g1, inv, p, c); BN_mod_mul(a0, g0, inv, p, c);
-		/* f mod g: x^3 + A x + C = (x - a1) g + r, r = (A - a0 + a1^2) x + (C + a1 a0) */
-		BN_mod_sqr(r1, a1, p, c); BN_mod_add(r1, r1, A, p, c); BN_mod_sub(r1, r1, a0, p, c); BN_mod_mul(r0, a1, a0, p, c); BN_mod_add(r0, r0, C, p, c);
-		if (!BN_is_zero(r1)) { /* candidate root of r: x0 = -r0/r1; it is the single common root iff g(x0) = 0 */ BN_mod_inverse(inv, r1, p, c); BN_mod_mul(q, r0, inv, p, c); BN_mod_sub(q, p, q, p, c); BN_nnmod(q, q, p, c);
-			BN_mod_sqr(m, q, p, c); BN_mod_mul(t, a1, q, p, c); BN_mod_add(m, m, t, p, c); BN_mod_add(m, m, a0, p, c); if (BN_is_zero(m)) { sr_bn_to_bytes32(xy, q); memset(xy + 32, 0, 32); xy[63] = (uint8_t)ys; xy[62] = (uint8_t)(ys >> 8); ok = 1; } }
-		BN_free(a1); BN_free(a0);
-	} else if (!BN_is_zero(g1)) { BN_mod_inverse(inv, g1, p, c); BN_mod_mul(q, g0, inv, p, c); BN_mod_sub(q, p, q, p, c); BN_nnmod(q, q, p, c); sr_bn_to_bytes32(xy, q); memset(xy + 32, 0, 32); xy[63] = (uint8_t)ys; xy[62] = (uint8_t)(ys >> 8); ok = sr_xy_on_curve(xy); }
-	for (int i = 0; i < 3; i++) { BN_free(h[i]); BN_free(x[i]); } BN_free(A); BN_free(C); BN_free(b); BN_free(t); BN_free(inv); BN_free(q); BN_free(r1); BN_free(r0); BN_free(m);
-	return ok && sr_xy_on_curve(xy);
-}
+#include "smally.h"
 static void build_values(void) {
 	sr_init(); BIGNUM *t = BN_new(), *y = BN_new(); const BIGNUM *p = sr_p(); uint8_t v[64];
 	BN_hex2bn(&t, "3945208F7B2144B13F36E38AC6D39F95889393692860B51A42FB81EF4DF7C5B8"); bn_be(GOODD, t); sr_pubkey(GOODD, GOOD);
